@@ -84,6 +84,11 @@ impl Case {
         }
         s
     }
+    /// the same configuration attributes around a bridge whose acceptance depends on the configuration
+    /// (a reference in a callback parameter needs `unsafe_references_in_callbacks`)
+    fn source_rich(&self) -> String {
+        self.source().replace("impl Thing { pub fn get(&self) -> u8 { 0 } }", "impl Thing { pub fn get(&self) -> u8 { 0 } pub fn each(&self, f: impl Fn(&Thing) -> u8) -> u8 { 0 } }")
+    }
     fn source(&self) -> String {
         let mut s = String::new();
         for (i, a) in self.attrs.iter().enumerate() {
@@ -358,6 +363,7 @@ pub fn main(args: &[String]) {
         }
     };
     let mut out_budget = if thorough { 400 } else { 40 };
+    let mut tie_budget = if thorough { 1200 } else { 120 };
     for ((c, l), m) in cases.iter().zip(lines.iter()).zip(model.iter()) {
         rep.case(l);
         rep.count(&format!("target={}", c.target));
@@ -389,6 +395,19 @@ pub fn main(args: &[String]) {
             if out_budget > 0 && (c.target == "kotlin" || c.target.contains("nanobind")) {
                 out_budget -= 1;
                 output_oracle(c, &doc, &mut rep);
+            }
+            // the real command line (main.rs + gen) against the in-process pipeline the other checks look through
+            if tie_budget > 0 && (tie_budget % 3 != 0 || c.target == "kotlin" || c.target.contains("nanobind")) {
+                tie_budget -= 1;
+                rep.oracle_runs += 1;
+                rep.count("cli-tie");
+                let cli: Vec<String> = c.cli.iter().map(|e| format!("{}={}", e.key, e.text)).collect();
+                let src = if tie_budget % 2 == 0 { c.source_rich() } else { c.source() };
+                if let Some(d) = tool::cli_tie(&dir.join("tie"), &src, &c.target, Some(&c.toml_text()), &cli) {
+                    rep.disagree(l, "cli-vs-in-process", &d.to_string(), "same verdict and byte-identical files");
+                }
+            } else if tie_budget > 0 {
+                tie_budget -= 1;
             }
         } else {
             rep.count("ill_typed_cases");
